@@ -20,6 +20,10 @@ Definition diag_wait_graph_acyclic := Eval vm_compute in wait_cycles nesting wai
 Print diag_wait_graph_acyclic.
 Definition diag_table_covers_waits := Eval vm_compute in wait_uncovered waits members.
 Print diag_table_covers_waits.
+Definition diag_waited_goroutines_always_started := Eval vm_compute in unstarted launches closers chan_waits.
+Print diag_waited_goroutines_always_started.
+Definition size_launches := Eval vm_compute in length launches.
+Print size_launches.
 Definition size_waits := Eval vm_compute in length waits.
 Print size_waits.
 Definition size_covers := Eval vm_compute in length covers.
